@@ -93,8 +93,37 @@ def ensure_registered():
 
     @register_pretty(UserObj)
     def _p(value, ctx):
-        return pretty_call_alt(ctx, call_target(value.cname), args=value.args, kwargs=value.kwargs)
+        return pretty_call_alt(ctx, call_target(value.cname), args=arg_container(value), kwargs=kw_container(value))
     _registered[0] = True
+
+
+def kw_container(value):
+    """pretty_call_alt documents kwargs as "an OrderedDict, dict, or an iterable of two-tuples": the same pairs are
+    handed over as a list, tuple, dict, OrderedDict, generator, zip or list iterator, chosen by the object's own
+    contents (stable across prints).  An EMPTY kwargs stays a list: an empty generator is truthy, which only
+    changes whether a sole argument is hugged."""
+    kws = list(value.kwargs)
+    if not kws:
+        return kws
+    mode = sum(map(ord, value.cname + ''.join(k for k, _ in kws))) % 7
+    if mode == 0:
+        return kws
+    if mode == 1:
+        return tuple(kws)
+    if mode == 2:
+        return dict(kws)
+    if mode == 3:
+        import collections
+        return collections.OrderedDict(kws)
+    if mode == 4:
+        return (kv for kv in kws)
+    if mode == 5:
+        return zip([k for k, _ in kws], [x for _, x in kws])
+    return iter(kws)
+
+
+def arg_container(value):
+    return list(value.args) if (len(value.cname) + len(value.kwargs)) % 2 else tuple(value.args)
 
 
 def base_kind(t):
@@ -240,6 +269,26 @@ def rand_str(r, maxlen=40):
 def rand_bytes(r, maxlen=30):
     n = r.choice([0, 1, 2, 5, 9, maxlen])
     return b''.join(r.choice(BALPHABET) if r.random() < 0.6 else bytes([r.choice(b'abcd ')]) for _ in range(n))
+
+
+PUNCT = ['/', '.', '-', ':', '?', '&', '=', '+', '#', '%', '@', '~', '\x00', '\x7f', '://', '--', '\\', "'", '"']
+
+
+def rand_punct_text(r, isbytes, nwords=None):
+    """words joined by punctuation and control characters, NO whitespace: the splitter has to fall back on
+    its non-word pattern (URLs, paths, dotted names, query strings)"""
+    n = nwords or r.choice([2, 4, 9, 17, 30])
+    words = ['www', 'example', 'com', 'User', 'john_doe', 'x' * r.randint(1, 25), 'image0001', 'q', '1500',
+             'caf\xe9', '_', 'A1']
+    out = []
+    for k in range(n):
+        out.append(r.choice(words))
+        if k < n - 1 or r.random() < 0.3:
+            out.append(r.choice(PUNCT) * r.choice([1, 1, 1, 2, 5]))
+    if r.random() < 0.2:
+        out.insert(0, r.choice(PUNCT))
+    t = ''.join(out)
+    return t.encode('latin-1') if isbytes else t
 
 
 def rand_leaf(r):
